@@ -411,6 +411,84 @@ def run_config_preemption(k, j=None):
     return results, later, ref
 
 
+class PK1:
+    def __init__(self, n=0):
+        self.n = n
+
+    def __repr__(self):
+        return '<default repr of PK1 %d>' % self.n
+
+
+class PK2(PK1):
+    def __repr__(self):
+        return '<default repr of PK2 %d>' % self.n
+
+
+_pk_registered = [False]
+
+
+def _pk_register():
+    """two PREDICATE printers (disjoint predicates, registered one after the other)"""
+    if _pk_registered[0]:
+        return
+    from prettyprinter import register_pretty, pretty_call
+
+    @register_pretty(predicate=lambda v: type(v) is PK1)
+    def _p1(value, ctx):
+        return pretty_call(ctx, 'PK1', value.n)
+
+    @register_pretty(predicate=lambda v: type(v) is PK2)
+    def _p2(value, ctx):
+        return pretty_call(ctx, 'PK2', value.n)
+    _pk_registered[0] = True
+
+
+def predicate_points():
+    """-> (first-execution points inside the predicate lookup - every execution of its lines, not only the first -,
+    first-execution points elsewhere, number of line events)"""
+    _pk_register()
+    seen, firsts, n = set(), [], [0]
+    inside = []
+    import os as _os
+    L = sys.modules.get('prettyprinter.layout') or __import__('prettyprinter.layout', fromlist=['x'])
+    pkg_dir = _os.path.dirname(L.__file__) + _os.sep
+    from prettyprinter import pformat
+
+    def local(frame, event, arg):
+        if event == 'line':
+            key = (frame.f_code.co_filename, frame.f_lineno)
+            if frame.f_code.co_name == '_repr_pretty':
+                inside.append(n[0])
+            elif key not in seen:
+                seen.add(key)
+                firsts.append(n[0])
+            n[0] += 1
+        return local
+
+    def glob(frame, event, arg):
+        return local if event == 'call' and frame.f_code.co_filename.startswith(pkg_dir) else None
+    sys.settrace(glob)
+    try:
+        pformat([PK2(0)])
+    finally:
+        sys.settrace(None)
+    return inside, firsts, n[0]
+
+
+def run_predicate_preemption(k):
+    """a value of the first predicate's kind is printed (sequentially), then two threads print values of the SECOND
+    predicate's kind: thread 0 is preempted after k package lines, thread 1 runs to its end, thread 0 finishes"""
+    from prettyprinter import pformat
+    _pk_register()
+    first = pformat(PK1(9))
+    vals = [[PK2(1)], [PK2(2)]]
+    ref = ['[PK2(1)]', '[PK2(2)]']
+    ctl = Controller(2, region='all')
+    fns = [(lambda v=v: pformat(v)) for v in vals]
+    results, used = ctl.run(fns, [0] * k, drain_order=[1, 0])
+    return results, first, ref
+
+
 def bounded_schedules(nthreads, max_run, switches):
     """all schedules made of at most [switches]+1 runs (a thread executing 0..max_run traced lines
     before being preempted by another thread); the remainder is drained sequentially"""
